@@ -18,6 +18,18 @@ UNITS = [
                  "constructor vs properties, optional defaults, type shapes, invariant descriptions, documentation "
                  "references, pattern anchoring, constant sets) of one base meta-model; the base model must be accepted",
            args={}),
+    # C04 beyond LinenoColumner: which node an error carries is decided in hundreds of Error(...) constructions; the
+    # corpus checks that the reported line lies in the mutated top-level statement (examples)
+    Native("locations reported for single-rule mutants lie in the mutated statement", ["C04"], "native.c06:locations",
+           kind="examples",
+           bound="the 49 rejected mutants of native/c06.py: at least one reported line (wrappers at line 1 aside) lies in "
+                 "the top-level statement that was mutated; two cycle mutants are exempt (a cycle is reported at another "
+                 "class of the cycle)", args={}),
+    # C03, clause "no error is silently dropped": decided inside the 9 000 lines of the front end; examples
+    Native("independent errors of one phase are all reported", ["C03"], "native.c06:multi_errors", kind="examples",
+           bound="4 meta-models with 2-3 independent errors of the same phase (three unsupported elements in one "
+                 "docstring, two unknown types, two dangling parents, two reserved names): every error must be mentioned "
+                 "in the report, which must be a headline ending in ':' followed by '* ' entries", args={}),
     # C01 as a whole: parse/_translate.py (4 000 lines) and intermediate/_translate.py (5 000 lines) are covered only by
     # *assumed* contracts at the level of load_model (contracts/core.py); this sweep is the bounded evidence behind
     # that assumption: it found 18 crashes on the pinned tree (all repaired, see known_findings.json).
@@ -67,6 +79,11 @@ UNITS = [
                  "field; 17 malformed JSON and 13 malformed XML documents must fail with DeserializationException "
                  "only; descend_once / descend order, visitor and transformer dispatch, over_X_or_empty",
            args={}, timeout_s=900),
+    Native("traversal of the generated types.py over nested lists", ["C29"], "native.c29:bounded", kind="examples",
+           bound="one meta-model with properties C, List[C], List[List[C]], Optional[List[List[List[C]]]], Optional[C] "
+                 "(types.py only, through verify_for_types + generate_types, because the complete Python target asserts "
+                 "on nested lists): descend_once order, descend pre-order, PassThroughVisitor on one nested instance",
+           args={}, timeout_s=600),
     Native("every small structured flow against its linearization", ["C26"], "native.c26:bounded", kind="bounded",
            bound="every flow of <= 4 (thorough: 5) nodes, nesting <= 3, over Command / Yield / IfTrue / IfFalse (with, "
                  "without and with empty else) / For (with, without init) / While (bodies may be empty) x all 2^5 "
